@@ -527,7 +527,7 @@ impl Cw1Scen {
                 v.push(format!("-{}", invalid_addr(rng, &self.pool)));
             } else if rng.chance(1, 12) {
                 // the proxy lists itself (every message it relays to itself then arrives with admin rights)
-                v.push(format!("+{}", self.env.contract.address));
+                v.push(mark(&MockApi::default(), self.env.contract.address.as_str()));
             } else {
                 v.push(format!("+{}", rng.pick(&self.pool)));
             }
@@ -793,12 +793,16 @@ impl Scenario for Cw1Scen {
     fn start(&mut self, seed: u64, trace: u64) -> String {
         let api = MockApi::default();
         let p = pool(&api, if self.wide { 40 } else { 5 });
+        // `me=`: the proxy's own address, a valid address like any other (it can be listed as an admin, be granted an
+        // allowance, call itself); a trace without it (older corpus files) keeps `mock_env`'s placeholder, which
+        // `addr_validate` refuses
         let header = format!(
-            "scenario {} seed={} trace={} pool={}",
+            "scenario {} seed={} trace={} pool={} me={}",
             self.name(),
             seed,
             trace,
-            p.iter().map(|a| a.to_string()).collect::<Vec<_>>().join(",")
+            p.iter().map(|a| a.to_string()).collect::<Vec<_>>().join(","),
+            api.addr_make("proxy")
         );
         self.reset(&header);
         header
@@ -808,6 +812,9 @@ impl Scenario for Cw1Scen {
         let a = Args::parse(header);
         self.deps = new_deps();
         self.env = mock_env();
+        if let Some(me) = a.opt("me") {
+            self.env.contract.address = Addr::unchecked(me);
+        }
         self.pool = a.list("pool").into_iter().map(Addr::unchecked).collect();
         self.inited = false;
         self.legacy = false;
@@ -838,6 +845,11 @@ impl Scenario for Cw1Scen {
                     "0.13.4", "1.9.9", "2.0.0", "2.0.0-beta", "2.0.0-alpha", "2.0.1", "3.0.0-rc1", "10.0.0", "1.99.99", "garbage", "1.2", "-",
                 ]);
                 let name = if rng.chance(1, 4) { "crates.io:cw1-whitelist" } else { "crates.io:cw1-subkeys" };
+                // an upgrade path must leave the admin configuration alone, also an unusual one (the proxy lists itself)
+                if rng.chance(1, 3) {
+                    let me = mark(&MockApi::default(), self.env.contract.address.as_str());
+                    admins = if admins.is_empty() { me } else { format!("{admins},{me}") };
+                }
                 return format!("inst_legacy admins={} mutable={} name={} ver={}", admins, rng.chance(4, 5), name, ver);
             }
             return format!("inst admins={} mutable={}", admins, rng.chance(4, 5));
